@@ -166,6 +166,9 @@ type searchOutcome struct {
 	best  string
 	last  string // score + pv of the last completed iteration
 	depth string
+	// score + pv of every iteration: iteration k of a fixed-depth search is
+	// the result of the fixed-depth search to depth k
+	iters []string
 }
 
 func outcomeAfter(hist []HistLine, goIdx int) (searchOutcome, bool) {
@@ -193,6 +196,7 @@ func outcomeAfter(hist []HistLine, goIdx int) (searchOutcome, bool) {
 				pv = t[p+4:]
 			}
 			o.last = score + " | " + pv
+			o.iters = append(o.iters, "d"+o.depth+" "+o.last)
 		}
 		if strings.HasPrefix(t, "bestmove") {
 			o.best = t
@@ -260,5 +264,7 @@ func checkNewGameEqualsFresh(hist []HistLine, res *RunResult) {
 	res.count("newgame_vs_fresh_compared", 1)
 	if o1.best != o2.best || o1.last != o2.last {
 		res.addViolation("C12", "newgame_differs_from_fresh", fmt.Sprintf("%s / %s: after ucinewgame %q [%s], fresh engine %q [%s]", p1, g1, o1.best, o1.last, o2.best, o2.last))
+	} else if a, b := strings.Join(o1.iters, " ; "), strings.Join(o2.iters, " ; "); a != b {
+		res.addViolation("C12", "newgame_differs_from_fresh", fmt.Sprintf("%s / %s: iterations after ucinewgame [%s], fresh engine [%s]", p1, g1, a, b))
 	}
 }
